@@ -516,4 +516,43 @@ theorem map_of_filter_some (f id id2 : Nat) (r r2 : Ty) (it p g dflt x y : Val) 
     pull (f + 25 + n + 20) (mapped id2 r2 (filtered id r it p) g dflt) σ = (.ok (some y), σ2) :=
   map_pull_some (f + 25 + n) id2 r2 _ g dflt x y σ σ1 σ2 (filter_call id r it p f σ σ1 _ n hl) hg
 
+/-! ## `for x in it body` visits `x₁ … xₙ` -/
+
+/-- the run of a `for` loop: one pull, then the body once with `x` bound to the element (in a frame of its own),
+    then the next call of the source; it ends when the source is exhausted or the body breaks.  `vs` are the elements the body
+    ran on, in order.  (`for` calls the iterator directly: one call per element, as `pull` would.) -/
+inductive ForRun (env : Env) (x : String) (it : Val) (body : Expr) : Nat → St → List Val → St → Prop where
+  | done {f : Nat} {σ σ' : St} {w : Val} :
+      callFn f it [] σ = (.ok (.tup [.bool false, w]), σ') → ForRun env x it body (f + 1) σ [] σ'
+  | step {f : Nat} {σ σ1 σ2 σ' : St} {v : Val} {vs : List Val} :
+      callFn f it [] σ = (.ok (.tup [.bool true, v]), σ1) →
+      bodyOnce f ([(x, v), ("$con", .bool true)] :: env) body σ1 = (.ok true, σ2) →
+      ForRun env x it body f σ2 vs σ' → ForRun env x it body (f + 1) σ (v :: vs) σ'
+  | brk {f : Nat} {σ σ1 σ2 : St} {v : Val} :
+      callFn f it [] σ = (.ok (.tup [.bool true, v]), σ1) →
+      bodyOnce f ([(x, v), ("$con", .bool true)] :: env) body σ1 = (.ok false, σ2) →
+      ForRun env x it body (f + 1) σ [v] σ2
+
+/-- a `for` loop is its run and evaluates to `()` -/
+theorem for_run (env : Env) (x : String) (it : Val) (body : Expr) (F : Nat) (σ σ' : St) (vs : List Val)
+    (h : ForRun env x it body F σ vs σ') : forGo F env x it body σ = (.ok .unit, σ') := by
+  induction h with
+  | done hp => simp only [for_step, bind_def, hp]; rfl
+  | step hp hb _ ih => simp only [for_step, bind_def, hp, if_true, hb]; exact ih
+  | brk hp hb => simp only [for_step, bind_def, hp, if_true, hb]; rfl
+
+/-- without `break`, the elements the body runs on are exactly the elements the source yields, in order -/
+theorem ForRun.visits_all {env : Env} {x : String} {it : Val} {body : Expr} {F : Nat} {σ σ' : St} {vs : List Val}
+    (h : ForRun env x it body F σ vs σ')
+    (hnb : ∀ f v σ1 σ2, bodyOnce f ([(x, v), ("$con", .bool true)] :: env) body σ1 ≠ (.ok false, σ2)) :
+    ∀ v ∈ vs, ∃ f σ0 σ1, callFn f it [] σ0 = (.ok (.tup [.bool true, v]), σ1) := by
+  induction h with
+  | done _ => intro v hv; cases hv
+  | step hp _ _ ih =>
+    intro v hv
+    cases hv with
+    | head => exact ⟨_, _, _, hp⟩
+    | tail _ hv => exact ih v hv
+  | brk hp hb => exact absurd hb (hnb _ _ _ _)
+
 end Ssl.C11
